@@ -52,6 +52,10 @@ def _edge_values(box, n, dtype):
         lo = np.nextafter(b, ft(0))
         if 0 <= lo < ft(box):
             vals.append(float(lo))
+        for e_ in (1e-9, 1e-7):            # clearly below the edge in float64, not resolved by a coarser type
+            v = ft(float(b) * (1 - e_))
+            if 0 <= v < ft(box) and k % 3 == 0:
+                vals.append(float(v))
     return vals
 
 
